@@ -46,8 +46,8 @@ def file_case(fa, cid, raw, records, codec="null", interval=16000, level=None, m
             path = os.path.join(tmpdir, cid + ".avro")
             with open(path, "wb") as fo:
                 fa.writer(fo, schema, records, **kw)
-            with open(path, "rb") as f:
-                data = f.read()
+                with open(path, "rb") as f:       # read while the writing handle is still open: writer() must have flushed it
+                    data = f.read()
         else:
             fo = io.BytesIO()
             fa.writer(fo, schema, records, **kw)
@@ -171,5 +171,150 @@ def run_c04(ctx, fa):
     run(ctx, fa, ("C04.",))
 
 
-def run_c05(ctx, fa):
+# ---------------------------------------------------------------------------- C05: independent writer, is_avro, fixtures
+def _varint(n):
+    z = (n << 1) ^ (n >> 63)
+    out = bytearray()
+    while z & ~0x7F:
+        out.append((z & 0x7F) | 0x80)
+        z >>= 7
+    out.append(z)
+    return bytes(out)
+
+
+def independent_files(ctx, fa, n):
+    """Spec-generated layout-valid files (TLC GenFile) assembled with standard-library compression, offered to fastavro."""
+    import json as _json
+    from . import tlc
+    rnd = ctx.sub_rnd("ind")
+    codecs = available_codecs(fa)
+    inputs = []
+    keep = {}
+    tries = 0
+    while len(inputs) < n and tries < 6 * n:
+        tries += 1
+        g = gen.Gen(rnd, logical=False, max_depth=rnd.choice([1, 2]), big=False)
+        ir = g.schema(top=rnd.choice(["record"] * 4 + ["prim", "array", "union", "enum", "map"]))
+        raw = g.render(ir)
+        try:
+            fa.parse_schema(raw)
+            records = [g.datum(ir, hints=False) for _ in range(rnd.choice([0, 1, 2, 3, 5, 8]))]
+        except Exception:  # noqa: BLE001
+            continue
+        codec = rnd.choice(codecs)
+        text = _json.dumps(raw, ensure_ascii=rnd.random() < 0.5).encode()
+        cid = "g%d" % len(inputs)
+        sync = bytes(rnd.getrandbits(8) for _ in range(16))
+        withkey = codec != "null" or rnd.random() < 0.5
+        um = rnd.choice([[], [("user", b"x")], [("a", b""), ("bé", bytes(range(40)))]])
+        inputs.append({"id": cid, "op": "genfile", "stext": list(text), "stree": proj.pj(_json.loads(text)), "records": [proj.pv(r) for r in records],
+                       "codec": proj.cps(codec), "codeckey": withkey, "usermeta": [{"k": proj.cps(k), "v": list(v)} for k, v in um],
+                       "sync": list(sync), "choices": [rnd.randint(0, 1000) for _ in range(24)]})
+        keep[cid] = (raw, codec, sync, text)
+    res = tlc.run_cases(inputs, "%s-%s-genfile" % (ctx.prop, ctx.tier), module="GenFile")
+    ctx.add_model(res["transitions"], res["states"])
+    ctx.checker_cmds.append("tlc GenFile.tla: independent-writer files for %d cases" % len(inputs))
+    for cid, msg in res["crashes"]:
+        ctx.machinery.append("TLC evaluation error in GenFile on %s: %s" % (cid, msg[:300]))
+    cases = []
+    stats = {"empty_blocks": 0, "multi_block": 0, "no_codec_key": 0}
+    for inp in inputs:
+        gfile = res["results"][inp["id"]]
+        if not isinstance(gfile, dict) or gfile.get("st") != "ok":
+            if isinstance(gfile, dict) and gfile.get("st", "").startswith("H."):
+                ctx.machinery.append("generator produced an invalid GenFile case %s: %s" % (inp["id"], gfile["st"]))
+            continue
+        raw, codec, sync, text = keep[inp["id"]]
+        data = bytearray(bytes(gfile["hdr"]))
+        table = []
+        for b in gfile["blocks"]:
+            plain = bytes(b["payload"])
+            comp = container.compress(codec, plain)
+            if codec != "null":
+                table.append({"c": list(comp), "d": list(plain), "ok": True})
+            data += _varint(b["count"]) + _varint(len(comp)) + comp + sync
+        data = bytes(data)
+        stats["empty_blocks"] += sum(1 for b in gfile["blocks"] if b["count"] == 0)
+        stats["multi_block"] += 1 if len(gfile["blocks"]) >= 2 else 0
+        stats["no_codec_key"] += 0 if inp["codeckey"] else 1
+        case = {"id": "i" + inp["id"], "op": "file_ind", "file": list(data), "hs": {"text": list(text), "tree": inp["stree"]},
+                "inflate": table, "expect": gfile["expect"], "nblocks": len(gfile["blocks"]), "codec": inp["codec"], "schema": inp["stree"]}
+        try:
+            rd = fa.reader(io.BytesIO(data))
+            recs = list(rd)
+            case["read"] = {"ok": True, "recs": [proj.pv(r) for r in recs], "codec": proj.cps(rd.codec)}
+        except Exception as e:  # noqa: BLE001
+            case["read"] = {"ok": False, "exc": proj.pexc(e)["exc"], "msg": proj.cps(str(e)[:200])}
+        try:
+            blocks = []
+            for b in fa.block_reader(io.BytesIO(data)):
+                blocks.append({"off": b.offset, "size": b.size, "n": b.num_records, "recs": [proj.pv(r) for r in b]})
+            case["br"] = {"ok": True, "blocks": blocks}
+        except Exception as e:  # noqa: BLE001
+            case["br"] = {"ok": False, "exc": proj.pexc(e)["exc"]}
+        cases.append(case)
+    ctx.extra["independent_writer"] = dict(stats, files=len(cases))
+    return cases
+
+
+def is_avro_cases(ctx, fa, n):
+    rnd = ctx.sub_rnd("isavro")
+    magic = b"Obj\x01"
+    pool = [b"", b"O", b"Ob", b"Obj", magic, magic + b"junk", b"Obj\x00", b"Obj\x02", b"obj\x01", b"\x01jbO", magic * 2, b"XObj\x01", b"Obj\x01\x00"]
+    while len(pool) < n:
+        k = rnd.choice([0, 1, 2, 3, 4, 5, 8, 30])
+        b = bytes(rnd.getrandbits(8) for _ in range(k))
+        if rnd.random() < 0.4:
+            b = magic[:rnd.randint(0, 4)] + b
+        pool.append(b)
+    cases = []
+    for i, b in enumerate(pool):
+        c = {"id": "m%d" % i, "op": "is_avro", "data": list(b)}
+        try:
+            c["result"] = bool(fa.is_avro(io.BytesIO(b)))
+            c["ok"] = True
+        except Exception as e:  # noqa: BLE001
+            c["ok"] = False
+            c["result"] = False
+        cases.append(c)
+    return cases
+
+
+def fixture_cases(ctx, fa, limit_bytes):
+    """Java-written fixture files shipped with the test-suite: fastavro's records must equal the spec parser's."""
+    import glob
+    out = []
+    for path in sorted(glob.glob(os.path.join(ctx.repo, "tests", "avro-files", "*.avro"))):
+        data = open(path, "rb").read()
+        if len(data) > limit_bytes:
+            continue
+        try:
+            desc = container.describe(data)
+        except Exception:  # noqa: BLE001 - codec not in the standard library (snappy ...) or not a container
+            continue
+        case = {"id": "fx_" + os.path.basename(path), "op": "file_ind", "file": list(data), "hs": desc["hs"], "inflate": desc["inflate"],
+                "nblocks": len(desc["walk"]), "fixture": os.path.basename(path)}
+        try:
+            rd = fa.reader(io.BytesIO(data))
+            recs = list(rd)
+            case["read"] = {"ok": True, "recs": [proj.pv(r) for r in recs], "codec": proj.cps(rd.codec)}
+        except Exception as e:  # noqa: BLE001
+            case["read"] = {"ok": False, "exc": proj.pexc(e)["exc"]}
+        try:
+            blocks = [{"off": b.offset, "size": b.size, "n": b.num_records, "recs": [proj.pv(r) for r in b]} for b in fa.block_reader(io.BytesIO(data))]
+            case["br"] = {"ok": True, "blocks": blocks}
+        except Exception as e:  # noqa: BLE001
+            case["br"] = {"ok": False, "exc": proj.pexc(e)["exc"]}
+        out.append(case)
+    return out
+
+
+def run_c05(ctx, fa):  # noqa: F811 - the full C05 check
     run(ctx, fa, ("C05.",))
+    ind = independent_files(ctx, fa, 150 if ctx.quick() else 2500)
+    core.judge_cases(ctx, ind, "ind", ("C05.",), nontrivial_fn=lambda c: c["nblocks"] >= 1,
+                     describe=lambda c: "independent-writer file, %d blocks, codec %s" % (c["nblocks"], proj.uncps(c["codec"])))
+    core.judge_cases(ctx, is_avro_cases(ctx, fa, 120 if ctx.quick() else 3000), "isavro", ("C05.",), nontrivial_fn=lambda c: len(c["data"]) >= 4,
+                     describe=lambda c: "is_avro(%r)" % bytes(c["data"])[:12])
+    ctx.rule += ("; plus spec-generated independent-writer files (any block partition, empty blocks, chunked header map in either count form, codec key "
+                 "absent) assembled with standard-library compression and offered to reader/block_reader; is_avro on byte strings around the magic")
